@@ -30,8 +30,8 @@ MANIFEST = {
                  '_compute_site_radius, Transitions.from_trajectory; z3; counter-models replayed natively against a brute-force '
                  'minimum-image oracle; random rotated/triclinic cells as bounded stand-in',
 }
-UNITS = ['unit_states_two_labels', 'unit_integer_remap', 'unit_states_single', 'unit_states_label', 'unit_site_radius', 'unit_from_trajectory']
-BOUNDED = ['bounded_states', 'bounded_lattice_conformance', 'bounded_purity']
+UNITS = ['unit_states_two_labels', 'unit_integer_remap', 'unit_states_single', 'unit_states_label', 'unit_site_radius', 'unit_from_trajectory', 'unit_plumbing']
+BOUNDED = ['bounded_states', 'bounded_lattice_conformance', 'bounded_purity', 'bounded_plumbing']
 META = {
     'clauses': {'C02.kd.box': 'P (obligation at search_tree: tree-orientation lattice with the same metric)', 'C02.kd.cutoff': 'P',
                 'C02.remap': 'P', 'C02.scatter': 'P', 'C02.reshape': 'P', 'C02.auto': 'P', 'inner subset of outer': 'P on call arguments + B',
@@ -456,8 +456,9 @@ def unit_from_trajectory(tier):
     calls = []
 
     def states_contract(interp, sites=None, trajectory=None, site_radius=None, site_inner_fraction=1.0):
-        calls.append({'sites': sites, 'trajectory': trajectory, 'site_radius': site_radius, 'f': site_inner_fraction})
-        return STensor((z3.Int('T'), z3.Int('N')), lambda t, a: z3.Int('opaque'), 'int')
+        res_ = STensor((z3.Int('T'), z3.Int('N')), lambda t, a: z3.Int('opaque'), 'int')
+        calls.append({'sites': sites, 'trajectory': trajectory, 'site_radius': site_radius, 'f': site_inner_fraction, 'result': res_})
+        return res_
     u.contracts['gemdat.transitions._calculate_atom_states'] = states_contract
     u.contracts['gemdat.transitions._calculate_transition_events'] = lambda interp, atom_sites=None, atom_inner_sites=None: SObj('Events', a=atom_sites, b=atom_inner_sites)
     u.contracts['gemdat.trajectory.Trajectory.filter'] = lambda interp, self, species: SObj('Trajectory', _filtered=species, _of=self)
@@ -494,8 +495,13 @@ def unit_from_trajectory(tier):
                 out.append(('per-label radii passed through', z3.BoolVal(sr is st['rad'])))
             else:
                 out.append(('automatic radius from _compute_site_radius', z3.BoolVal(isinstance(sr, dict) and list(sr) == [''] and z3.is_expr(sr['']) and sr[''].eq(auto))))
-            ev = res.get('events')
-            out.append(('events built from (states, inner states)', z3.BoolVal(isinstance(ev, SObj) and ev.get('a') is res.get('states') and ev.get('b') is res.get('inner_states'))))
+            ev = res.get('events') if isinstance(res, SObj) and res.has('events') else None
+            out.append(('events built from (states, inner states)', z3.BoolVal(isinstance(ev, SObj) and ev._cls == 'Events' and ev.get('a') is c0['result'] and ev.get('b') is c1['result'])))
+            out.append(('the full-radius states become .states and the inner-fraction states .inner_states', z3.BoolVal(
+                isinstance(res, SObj) and res.has('states') and res.get('states') is c0['result'] and res.has('inner_states') and res.get('inner_states') is c1['result'])))
+            out.append(('the object keeps the full trajectory, the diffusing-species trajectory and the sites it was built from', z3.BoolVal(
+                isinstance(res, SObj) and res.has('trajectory') and res.get('trajectory') is st['traj'] and res.has('sites') and res.get('sites') is st['sites']
+                and res.has('diff_trajectory') and res.get('diff_trajectory') is c0['trajectory'])))
             return out
         u.prove_function('gemdat.transitions', 'Transitions.from_trajectory', setup, post, raises=(), label=f'gemdat.transitions.Transitions.from_trajectory[radius:{mode}]',
                          replay={'fn': 'verif.props.c02:replay_states', 'sizes': lambda st: [], 'concretise': lambda m, st, ob: {'fallback_seed': 3}})
@@ -689,3 +695,14 @@ from verif.native.purity import make_bounded as _make_purity  # noqa: E402
 from verif.props.purity_reg import REG as _PURITY_REG  # noqa: E402
 PURITY = _PURITY_REG['C02']
 bounded_purity = _make_purity('C02', PURITY)
+
+
+# plumbing around the anchored functions: forwarding contracts of the public wrappers, no state shared between calls or objects
+from verif.props import plumbing as _plumbing  # noqa: E402
+
+
+def unit_plumbing(tier):
+    return _plumbing.unit_plumbing(PROPERTY)
+
+
+bounded_plumbing = _plumbing.make_bounded(PROPERTY)
